@@ -99,6 +99,9 @@ diffs)  # the recorded patches selftest/C17/*.diff (deep chains, type-level Init
       sweep-collectfunctions-no-parent) pat='ifacex-instance' ;;
       sweep-function-assertoverride-deleted) pat='fnover-accepted' ;;
       sweep-objectid-constant) pat='type-hash-key' ;;
+      tparam-positional-skips-valuehash) pat='pos-named-differ|tparam-pos-named' ;;
+      tparam-extension-equals-ignores-bindings) pat='equality-wrong' ;;
+      tparam-binds-on-empty-values) pat='equality-wrong|pos-named-differ' ;;
       *) pat='' ;;
     esac
     run "mutant $(basename "$d" .diff)" 1 "$pat"
